@@ -12,7 +12,8 @@ Line-protocol driver for C01. The Go harness describes one case in several lines
   UC which decodable roundIndex agg              (which: 0 = header.Validator, 1 = header.Certificate)
   VOTE which idx votes proof sig
   CH hashHex stake T total j|p                   value of the real choose() (p = it panics)
-  RUN side|seal                                  -> ok | err <class> [<why>] | crash | missing-choose
+  LBCFG seedLookBack stakeLookBack ; AT height hasCons seedHex certT version lbSlot   the chain seen by resolving entries
+  RUN side|seal|chain                            -> ok | err <class> [<why>] | crash | missing-choose
   OT count T isPos                               -> 1 | 0      (OverThreshold)
  proof = "-" | key:seedHex:role:index:hashHex ; sig atom = key:hashHex:round:index ; agg = x | e | atom,atom,…
 -/
@@ -38,6 +39,10 @@ structure St where
   votes0 : List Vote := []     -- reversed
   votes1 : List Vote := []
   ch : List ((Nat × Nat × Nat × Nat) × Option Int) := []
+  lb2 : LookBack := ⟨[], 0⟩
+  lb3 : LookBack := ⟨[], 0⟩
+  cfg : LbCfg := ⟨0, 0⟩
+  chain : List (Nat × LbHeader × Nat) := []     -- height ↦ (header, LB slot its ValRoot resolves to)
 
 def hexNat? (s : String) : Option Nat := (bytesOfHex? s).map natOfBytesBE
 
@@ -107,7 +112,12 @@ def runCase (st : St) (entry : String) : String :=
   let versions : Nat → Option Params := fun v => (st.versions.find? (·.1 == v)).map (·.2)
   let go (d : Int) : Res :=
     let C := mkCrypto st d
-    if entry == "seal" then verifySeal Checks.current C versions st.cp st.seedHdr st.lb0 st.certHdr st.lb1 h
+    if entry == "chain" then
+      let slot (i : Nat) : LookBack := if i == 0 then st.lb0 else if i == 1 then st.lb1 else if i == 2 then st.lb2 else st.lb3
+      let view : ChainView := { header := fun n => (st.chain.find? (·.1 == n)).map (·.2.1),
+                                vals := fun n => (st.chain.find? (·.1 == n)).map (fun e => slot e.2.2) }
+      verifySealResolved Checks.current C versions st.cp st.cfg view h
+    else if entry == "seal" then verifySeal Checks.current C versions st.cp st.seedHdr st.lb0 st.certHdr st.lb1 h
     else verifySide Checks.current C versions st.cp st.seedHdr st.lb0 st.certHdr st.lb1 h
   -- a choose() value the harness did not supply would show as a verdict that depends on the default
   let r1 := go (-1180591620717411303424)
@@ -129,15 +139,27 @@ def step (st : St) (line : String) : St × String :=
     | _, _, _ => (st, "bad-op")
   | ["LB", w, tot] =>
     match tot.toNat? with
-    | some tot => (if w == "0" then { st with lb0 := ⟨[], tot⟩ } else { st with lb1 := ⟨[], tot⟩ }, "ok")
+    | some tot => (if w == "0" then { st with lb0 := ⟨[], tot⟩ } else if w == "1" then { st with lb1 := ⟨[], tot⟩ }
+                   else if w == "2" then { st with lb2 := ⟨[], tot⟩ } else { st with lb3 := ⟨[], tot⟩ }, "ok")
     | none => (st, "bad-op")
   | ["VAL", w, a, s, t, k, o, mk, bk] =>
     match hexNat? a, s.toNat?, t.toNat?, k.toNat?, mk.toNat?, bk.toNat? with
     | some a, some s, some t, some k, some mk, some bk =>
       let v : Val := ⟨a, s, t, k, b o, keyOpt mk, keyOpt bk⟩
       (if w == "0" then { st with lb0 := { st.lb0 with vals := st.lb0.vals ++ [v] } }
-       else { st with lb1 := { st.lb1 with vals := st.lb1.vals ++ [v] } }, "ok")
+       else if w == "1" then { st with lb1 := { st.lb1 with vals := st.lb1.vals ++ [v] } }
+       else if w == "2" then { st with lb2 := { st.lb2 with vals := st.lb2.vals ++ [v] } }
+       else { st with lb3 := { st.lb3 with vals := st.lb3.vals ++ [v] } }, "ok")
     | _, _, _, _, _, _ => (st, "bad-op")
+  | ["LBCFG", a, c] =>
+    match a.toNat?, c.toNat? with
+    | some a, some c => ({ st with cfg := ⟨a, c⟩ }, "ok")
+    | _, _ => (st, "bad-op")
+  | ["AT", n, hc, sd, ct, v, slot] =>
+    match n.toNat?, hexNat? sd, ct.toNat?, v.toNat?, slot.toNat? with
+    | some n, some sd, some ct, some v, some slot =>
+      ({ st with chain := (n, ⟨if b hc then some (sd, ct) else none, v⟩, slot) :: st.chain.filter (·.1 != n) }, "ok")
+    | _, _, _, _, _ => (st, "bad-op")
   | ["SEEDHDR", hc, sd] =>
     match hexNat? sd with
     | some sd => ({ st with seedHdr := ⟨if b hc then some (sd, 0) else none, 0⟩ }, "ok")
